@@ -10,14 +10,15 @@ from .. import hlib, symx
 from ..hlib import fm
 from finam.errors import FinamCircularCouplingError
 from finam.interfaces import ComponentStatus
-from finam.tools.connect_helper import ConnectHelper, FromInput, FromOutput
+from finam.tools.connect_helper import ConnectHelper, FromInput, FromOutput, FromValue
 
 
 class CComp(fm.TimeComponent):
     """Time component whose connect behaviour is given by a spec.
 
-    inputs : {name: {"info": "declared" | "from_out:<o>", "pull": bool}}
-    outputs: {name: {"info": "declared" | "rule_in:<i>" | "manual_in:<i>", "deps": [inputs]}}
+    inputs : {name: {"info": "declared" | "from_out:<o>[+units=<u>]", "pull": bool}}
+    outputs: {name: {"info": "declared[:<u>]" | "rule_in:<i>[+units=<u>]" | "manual_in:<i>", "deps": [inputs]}}
+    ("+units=<u>": a FromValue rule after the transfer rule -- later rules overwrite earlier ones)
     """
 
     def __init__(self, name, idx, start, spec):
@@ -38,14 +39,14 @@ class CComp(fm.TimeComponent):
                 self.inputs.add(name=n, time=self.time, grid=fm.NoGrid(1), units=None)
             else:
                 self.inputs.add(name=n, info=None)
-                in_rules[n] = [FromOutput(s["info"].split(":")[1])]
+                in_rules[n] = [FromOutput(_slot_of(s["info"]))] + _value_rules(s["info"])
         for n, s in self.spec.get("outputs", {}).items():
-            if s["info"] == "declared":
-                self.outputs.add(name=n, time=self.time, grid=fm.NoGrid(1), units="m")
+            if s["info"].startswith("declared"):
+                self.outputs.add(name=n, time=self.time, grid=fm.NoGrid(1), units=_declared_units(s["info"]))
             else:
                 self.outputs.add(name=n)
                 if s["info"].startswith("rule_in:"):
-                    out_rules[n] = [FromInput(s["info"].split(":")[1])]
+                    out_rules[n] = [FromInput(_slot_of(s["info"]))] + _value_rules(s["info"])
         pulls = [n for n, s in self.spec.get("inputs", {}).items() if s.get("pull")]
         self.create_connector(pull_data=pulls, in_info_rules=in_rules, out_info_rules=out_rules)
 
@@ -54,11 +55,11 @@ class CComp(fm.TimeComponent):
         c = self.connector
         for n, s in self.spec.get("outputs", {}).items():
             if s["info"].startswith("manual_in:") and not c.infos_pushed[n]:
-                src = c.in_infos[s["info"].split(":")[1]]
+                src = c.in_infos[_slot_of(s["info"])]
                 if src is not None:
                     push_infos[n] = src.copy_with()
             if not c.data_pushed[n] and all(c.in_data.get(d) is not None for d in s.get("deps", [])):
-                push_data[n] = np.array([float(1000 * self.idx)], dtype=object)
+                push_data[n] = np.array([float(1000 * (self.idx + 1))], dtype=object)  # raw: in the output's units
         self.try_connect(start_time, push_infos=push_infos, push_data=push_data)
 
     def _validate(self):
@@ -69,6 +70,50 @@ class CComp(fm.TimeComponent):
 
     def _finalize(self):
         pass
+
+
+def _slot_of(info):
+    return info.split(":")[1].split("+")[0]
+
+
+def _value_rules(info):
+    return [FromValue("units", part.split("=")[1]) for part in info.split("+")[1:] if part.startswith("units=")]
+
+
+def _override_units(info):
+    for part in info.split("+")[1:]:
+        if part.startswith("units="):
+            return part.split("=")[1]
+    return None
+
+
+def _declared_units(info):
+    return info.split(":")[1] if ":" in info else "m"
+
+
+def resolve_units(spec):
+    """Units every slot must carry after connect, from the declared rules alone (independent of finam):
+    a declared output has its units; an output with a transfer rule takes its input's units unless a later
+    value rule overrides them; an input declared without units takes its source's; an input with a
+    FromOutput rule takes its own output's units unless overridden."""
+    src_of = {(l[2], l[3]): (l[0], l[1]) for l in spec["links"]}
+    units = {}
+    for _ in range(12):
+        for cn, cs in spec["comps"].items():
+            for o, s in cs.get("outputs", {}).items():
+                inf = s["info"]
+                if inf.startswith("declared"):
+                    units[("O", cn, o)] = _declared_units(inf)
+                else:
+                    units[("O", cn, o)] = _override_units(inf) or units.get(("I", cn, _slot_of(inf)))
+            for i, s in cs.get("inputs", {}).items():
+                inf = s["info"]
+                if inf == "declared":
+                    so = src_of[(cn, i)]
+                    units[("I", cn, i)] = units.get(("O",) + so)
+                else:
+                    units[("I", cn, i)] = _override_units(inf) or units.get(("O", cn, _slot_of(inf)))
+    return units
 
 
 def fixpoint(spec):
@@ -90,14 +135,14 @@ def fixpoint(spec):
         for cn, cs in comps.items():
             for i, s in cs.get("inputs", {}).items():
                 so = src_of[(cn, i)]
-                own = True if s["info"] == "declared" else ok(("OI", cn, s["info"].split(":")[1]))
+                own = True if s["info"] == "declared" else ok(("OI", cn, _slot_of(s["info"])))
                 if ("II", cn, i) not in done and own and ok(("PI",) + so):
                     done.add(("II", cn, i)); changed = True
                 if s.get("pull") and ("ID", cn, i) not in done and ok(("II", cn, i)) and ok(("PD",) + so):
                     done.add(("ID", cn, i)); changed = True
             for o, s in cs.get("outputs", {}).items():
                 if ("PI", cn, o) not in done:
-                    if s["info"] == "declared" or ok(("II", cn, s["info"].split(":")[1])):
+                    if s["info"].startswith("declared") or ok(("II", cn, _slot_of(s["info"]))):
                         done.add(("PI", cn, o)); changed = True
                 if ("OI", cn, o) not in done and ok(("PI", cn, o)) and \
                         all(ok(("II", d, i)) for (d, i) in consumers.get((cn, o), [])):
@@ -152,6 +197,7 @@ def h_connect(ctx):
     for (s, o) in spec.get("dangling_adapters", []):
         comps[s].outputs[o] >> fm.adapters.Scale(1.0)  # an adapter nobody reads from
     expected = fixpoint(spec)
+    exp_units = resolve_units(spec)
     calls = [0]
     bad = []
 
@@ -218,9 +264,26 @@ def h_connect(ctx):
             for i, s in c.spec.get("inputs", {}).items():
                 if s.get("pull"):
                     srcn = [l[0] for l in spec["links"] if l[2] == n and l[3] == i][0]
+                    srco = [l[1] for l in spec["links"] if l[2] == n and l[3] == i][0]
                     got = float(hlib.tagval(h.in_data[i]))
-                    ctx.check(got == float(1000 * comps[srcn].idx), "initial-pull-wrong-value",
-                              {"sig": f"{n}.{i}"})
+                    u_src, u_dst = exp_units.get(("O", srcn, srco)), exp_units.get(("I", n, i))
+                    factor = float(fm.UNITS.Quantity(1.0, u_src).to(u_dst).magnitude) if u_src and u_dst else 1.0
+                    want = float(1000 * (comps[srcn].idx + 1)) * factor
+                    ctx.check(abs(got - want) <= 1e-9 * max(1.0, abs(want)), "initial-pull-wrong-value",
+                              {"sig": f"{n}.{i}", "got": got, "want": want})
+                    if u_dst:
+                        ctx.check(h.in_data[i].units == fm.UNITS.Unit(u_dst), "initial-pull-wrong-units",
+                                  {"sig": f"{n}.{i}", "units": str(h.in_data[i].units), "want": u_dst})
+            for i in c.spec.get("inputs", {}):
+                u = exp_units.get(("I", n, i))
+                if u:
+                    ctx.check(c.inputs[i].info.units == fm.UNITS.Unit(u), "input-metadata-differs-from-rules",
+                              {"sig": f"{n}.{i}", "units": str(c.inputs[i].info.units), "want": u})
+            for o in c.spec.get("outputs", {}):
+                u = exp_units.get(("O", n, o))
+                if u:
+                    ctx.check(c.outputs[o].info.units == fm.UNITS.Unit(u), "output-metadata-differs-from-rules",
+                              {"sig": f"{n}.{o}", "units": str(c.outputs[o].info.units), "want": u})
     else:
         if outcome != "circular":
             ctx.fail("cyclic-dependencies-not-reported", {"sig": outcome, "scenario": sig})
@@ -275,6 +338,17 @@ SCENARIOS = [
               "outputs": {"o": {"info": "declared", "deps": []}}},
         "Y": {"inputs": {"i": D()}}},
      "links": [("X", "o", "A", "i"), ("A", "o", "Y", "i")]},
+    {"name": "transfer_in_to_out_then_value", "comps": {
+        "A": {"outputs": {"o": {"info": "declared", "deps": []}}},
+        "T": {"inputs": {"i": D()}, "outputs": {"o": {"info": "rule_in:i+units=km", "deps": ["i"]}}},
+        "C": {"inputs": {"i": D()}}},
+     "links": [("A", "o", "T", "i"), ("T", "o", "C", "i")]},
+    {"name": "transfer_out_to_in_then_value", "comps": {
+        "X": {"outputs": {"o": {"info": "declared", "deps": []}}},
+        "T": {"inputs": {"i": {"info": "from_out:o+units=km", "pull": True}},
+              "outputs": {"o": {"info": "declared", "deps": []}}},
+        "Y": {"inputs": {"i": D()}}},
+     "links": [("X", "o", "T", "i"), ("T", "o", "Y", "i")]},
     {"name": "branch_behind_adapter", "comps": {
         "C1": {"inputs": {"i": D()}},
         "P": {"outputs": {"o": {"info": "declared", "deps": []}}},
@@ -322,7 +396,7 @@ EXPLANATION = (
     "every single ConnectHelper.connect call is checked for status vs. observed progress. The dependency shapes are a "
     "finite catalogue -- the solver's part is path feasibility, the orders, and the start-time arithmetic."
 )
-ASSUMPTIONS = ["catalogue of 14 dependency scenarios (incl. links branching behind a shared pass-through adapter and an adapter nobody reads from) (vf/props/c06.py SCENARIOS), up to 4 components"]
+ASSUMPTIONS = ["catalogue of 16 dependency scenarios (incl. transfer rules followed by a value rule, in both directions) (incl. links branching behind a shared pass-through adapter and an adapter nobody reads from) (vf/props/c06.py SCENARIOS), up to 4 components"]
 
 
 def families(tier):
